@@ -6,6 +6,7 @@ import (
 	"fmt"
 	"os"
 	"path/filepath"
+	"runtime"
 	"sort"
 	"strings"
 
@@ -38,6 +39,10 @@ func genScenario(rng *kit.Rng) scenario {
 		sc.MaxEvents = 1 + rng.Intn(5)
 	case x < 92:
 		sc.Stream, sc.Faults = "malformed", rng.Intn(2)
+	case x < 96:
+		// buffered projector, events mostly arriving one by one through notifications, PLog event cache off
+		sc.Stream, sc.NoCache, sc.Limit, sc.Faults = "alias", true, kit.Pick(rng, []int{5, 100}), rng.Intn(2)
+		sc.Burst = 0
 	default:
 		sc.Stream = "batch"
 		sc.Burst = kit.Pick(rng, []int{49, 50, 51, 52, 99, 100, 101})
@@ -81,6 +86,9 @@ func emit(out *kit.Out, d *driver, note string) {
 	for _, o := range d.orderSeen {
 		d.tag("map-order:" + o)
 	}
+	if d.badRows {
+		d.tag("C09-F2:row-content-of-another-event")
+	}
 	if d.posBeforeMail {
 		d.tag("F21:position-before-mail")
 	}
@@ -108,6 +116,9 @@ func emit(out *kit.Out, d *driver, note string) {
 }
 
 func Generate(seed uint64, n int, tier, corpusDir string, shard int, out *kit.Out) error {
+	// one P: which pooled buffer a read gets next (sync.Pool under bytebufferpool) does not depend on
+	// how the goroutines are spread over processors
+	runtime.GOMAXPROCS(1)
 	var firstErr error
 	err := withBubbles(func(bubble func(func())) {
 		if corpusDir != "" && shard == 0 {
@@ -176,6 +187,7 @@ func Replay(path string, out *kit.Out) error {
 	if err != nil {
 		return err
 	}
+	runtime.GOMAXPROCS(1)
 	var derr error
 	err = withBubbles(func(bubble func(func())) {
 		d := runCase(bubble, sc)
